@@ -173,7 +173,12 @@ RECIPES = {
         runs=[dict(cmd="damage", gen="small:20,batch:8,gc-heavy:6,big:3,names:3,aim-batch:10", policy="always_flush",
                    opts={"classes": "payload,crc,hdr,noise", "noise": "300"},
                    opts_thorough={"classes": "payload,crc,hdr,noise", "noise": "1500", "thorough": True}, thorough_factor=8),
-              dict(cmd="damage", gen="embed:12", policy="always_flush", opts={"classes": "embed,hdr"})],
+              dict(cmd="damage", gen="embed:12", policy="always_flush", opts={"classes": "embed,hdr"}),
+              # damage after crash recovery: the dangling head of a torn multi-frame append, completed by an append
+              # of exactly the missing size, whose frame is then retyped Full -> Last at rest
+              dict(cmd="run", gen="big:8,batch:12,aim-batch:8,aim-block:8", policy="always_flush",
+                   opts={"crash": "process", "tears": "boundaries", "cont": True, "glue": True, "max-points": "400"},
+                   thorough_factor=6)],
         rule="closed images of recorded runs x in-place damage aimed with the frame table (every header field of every "
              "frame, payload first/middle/last byte, CRC bytes, garbage / zero ranges, block boundaries) + random noise, "
              "1-3 operations; every recovered record must equal a record of some recorded append of the same queue, "
